@@ -30,7 +30,8 @@ RULE = ("Hypothesis generates a job mix for LaneBasedExecutionQueue (1-8 lanes, 
         "inherited base; no processStarted after cancelAllJobs() returned; no child left alive or zombie; no TSan "
         "report. Non-trivial = a run with more jobs than lanes and a launch whose output exceeds the pipe buffer or "
         "that released its lane; distinct = sha1 of the case.")
-ASSUMPTIONS = ["the client waits for every launched process's completion before destroying the queue, as the build engine does",
+ASSUMPTIONS = ["in three quarters of the cases the client waits for every body and completion before destroying the queue, as the "
+               "build engine does; in the rest the queue is destroyed right after the submits and its destructor must drain it",
                "interleavings are sampled, not owned; poll() failures are not injected",
                "a descriptor-starved launch may either fail as a spawn error (no output) or run normally, depending on how many descriptors it needs"]
 
@@ -109,11 +110,20 @@ def case(draw):
             jobs[p]["adds"].append(j["id"])
         else:
             top.append(j["id"])
+    nowait = draw(st.integers(0, 3)) == 0
+    if nowait:
+        # every job is submitted before the destructor starts (submitting to a queue whose destruction is
+        # under way is not a use the interface documents)
+        for j in jobs:
+            j["adds"] = []
+        top = [j["id"] for j in jobs]
     cancel = draw(st.sampled_from([None, None, None, 1, 2, 5, 10]))
     if cancel is not None and cancel > n:
         cancel = n
     return {"kind": kind, "lanes": lanes, "alg": draw(st.sampled_from(["fifo", "prio"])), "jobs": jobs, "top": top,
-            "cancel": cancel}
+            "cancel": cancel,
+            # destroy the queue right after the submits: its destructor has to drain what is still queued
+            "nowait": nowait}
 
 
 def strategy(tier):
@@ -136,6 +146,8 @@ def script_of(c):
         L.append("submit " + t)
     if c["cancel"]:
         L.append("cancel jobs=%d" % c["cancel"])
+    if c.get("nowait"):
+        L.append("nowait")
     L.append("end")
     return "\n".join(L) + "\n"
 
@@ -328,6 +340,8 @@ def run_case(case, ctx, verbose=False):
         return Outcome("after the queue was destroyed a child process is still %s" % children)
     nt = len(case["jobs"]) > case["lanes"] and (big or released_any)
     cls = [case["kind"]]
+    if case.get("nowait"):
+        cls.append("destroyed-while-busy")
     if cancelled_run:
         cls.append("cancel")
     if big:
